@@ -292,6 +292,42 @@ def walk_graph(rep, kind, edges):
     return done, len(snap)
 
 
+def sibling_steps(rep, kind):
+    """Two objects built from the SAME caller array (and the copy idiom cls(a.values, a.dt)): whatever is done to one of
+    them, the other -- with every derived quantity memoised -- must still report what a fresh object with ITS values
+    reports (its values are its own, so nothing of it may move or go stale)."""
+    import eqsig
+    cls = eqsig.AccSignal if kind == "AccSignal" else eqsig.Signal
+    ops = ops_for(kind)
+    n = 0
+    for op in sorted(ops):
+        for idiom in (0, 1):
+            src = base_record()
+            kw = {"smooth_fa_freqs": FREQ_A.copy()}
+            if kind == "AccSignal":
+                kw["response_times"] = RT_A.copy()
+            a = cls(src, 0.01, **kw)
+            b = cls(src, 0.01, **kw) if idiom == 0 else cls(a.values, a.dt, **kw)
+            before = read_all(b, kind)
+            for q in QORDER[kind]:
+                for r in QREADS[q]:
+                    getattr(b, r)               # b has everything memoised
+            try:
+                apply_op(a, ops[op])
+            except Exception:
+                continue
+            n += 1
+            codes, fresh, got = project(b, kind)
+            rep.count("SiblingUndisturbed")
+            stale = [q for q in QORDER[kind] if not fresh[q]] + [r for r in UNCACHED if not fresh[r]]
+            moved = [r for r in got if not same(got[r], before[r])]
+            if stale or moved:
+                rep.fail("NoStale[%s]" % (stale[0] if stale else moved[0]), "sibling",
+                         {"kind": kind, "op_on_other_object": op, "built": ["both from the same ndarray", "cls(a.values, a.dt)"][idiom],
+                          "stale": stale, "moved": moved})
+    return n
+
+
 def replay_behaviours(rep, kind, edges, recs, tid0, maxb):
     """-simulate behaviours replayed from a fresh object; every step is also logged for Trace_SignalCache"""
     ops = ops_for(kind)
@@ -389,7 +425,7 @@ def run(tier, seed):
         # 2. spec -> code: every edge of the graph on a real object
         nedges, nstates = walk_graph(rep, kind, edges)
         rep.evaluations += nedges
-        rep.extra["walk_%s" % kind] = {"model_states": nstates, "edges_executed": nedges}
+        rep.extra["walk_%s" % kind] = {"model_states": nstates, "edges_executed": nedges, "sibling_steps": sibling_steps(rep, kind)}
         # 3. long random behaviours from TLC (-simulate), replayed and logged
         if tier == "thorough":
             num, depth, maxb = 150, 60, 150
